@@ -862,6 +862,70 @@ def phase_mutations(ctx, fnd, deltas):
     ctx.sample({"phase": "mutation", "base": b.hex(), "delta": d.hex(), "py": obs["py"]["u0"]["k"], "rs": obs["rs"]["u0"]["k"]})
 
 
+# =========================================================================== phase P: the decoder inside the pack machinery
+PACK_SITE = "dulwich/pack.py:DeltaChainIterator._resolve_object"
+
+
+def phase_pack(ctx, fnd, deltas, states):
+    """A sample of valid deltas (real encoders) and of structured bad deltas travels through a real
+    pack file and dulwich's DeltaChainIterator (which calls apply_delta and guards empty payloads)."""
+    rng = ctx.rng
+    valid = [r for r in deltas if r.enc in ("py", "rs", "git") and len(r.bt()[0]) <= 4096 and len(r.delta) <= 600]
+    rng.shuffle(valid)
+    cases, meta = [], {}
+    for r in valid[:ctx.pick(150, 1500)]:
+        cid = f"p{len(cases)}"
+        t = 3 if len(r.bt()[1]) == 0 else rng.choice((1, 2, 3, 4))
+        cases.append({"id": cid, "type": t, "base": r.brecipe, "delta": r.delta.hex(), "iso": False})
+        meta[cid] = (r.bt()[0], r.delta, r.bt()[1], t)
+    bad = [s for s in states if s["blen"] <= 300 and len(s["delta"]) <= 600
+           and (D.limbs_to_int(s["dst"]) or 0) < (1 << 24)]
+    rng.shuffle(bad)
+    for s in bad[:ctx.pick(250, 2500)]:
+        cid = f"p{len(cases)}"
+        t = rng.choice((1, 2, 3, 4))
+        cases.append({"id": cid, "type": t, "blen": s["blen"], "delta": s["delta"].hex(), "iso": False})
+        meta[cid] = (D.pattern_base(s["blen"]), s["delta"], None, t)
+    obs = run_case_jobs(ctx, "pack", cases, 3)
+    traces = []
+    order = list(meta)
+    for n, cid in enumerate(order, 1):
+        b, d, t, _ = meta[cid]
+        full = all("hex" in obs[m][cid] or obs[m][cid]["k"] != "bytes" for m in MODES)
+        traces.append({"tid": n, "kind": "rt" if t is not None else "mut", "blen": len(b), "delta": list(d), "full": full,
+                       "base": list(b) if full else [], "target": list(t) if full and t is not None else [],
+                       "obs": [obs_for_trace(m, obs[m][cid]) for m in MODES] if full else []})
+    verdicts = tlc_traces(ctx, traces, "pack")
+    guard = 0
+    for n, cid in enumerate(order, 1):
+        b, d, t, typ = meta[cid]
+        _, _, st, why, dst, chas, prod, rt, allowed, eq, segs, csegs = verdicts[n]
+        declared = D.limbs_to_int(dst)
+        tr = traces[n - 1]
+        cand = None if tr["full"] or not chas else D.sha1(D.materialise(b, d, csegs))
+        for j, m in enumerate(MODES):
+            o = obs[m][cid]
+            ctx.count()
+            ctx.validated()
+            ctx.nontrivial(("pack", m, typ, D.sha1(b + b"|" + d)))
+            x = {"via": "two-object pack, UnpackedObjectIterator", "type_num": typ}
+            k = o["k"]
+            empty_guard = k == "delta-error" and typ != 3 and st == "ok" and declared == 0
+            guard += empty_guard
+            ok_bytes = k == "bytes" and (allowed[j] if tr["full"] else (cand is not None and o["sha"] == cand))
+            if k == "bytes" and not o.get("base_ok", True):
+                ok_bytes = False
+            if k == "bytes" and not ok_bytes or k not in ("bytes", "delta-error"):
+                sig = f"{PACK_SITE}[{m}]|{clause_of(o, declared)}|declared={D.bucket(declared)}"
+                fnd.add(sig, f"{m}: delta resolved through a pack file: {clause_of(o, declared)}",
+                        {"kind": "pack", "mode": m, "type": typ, "base": [["hex", b.hex()]], "delta": d.hex(), "observed": o, **x}, len(d))
+            elif t is not None and rt and not empty_guard and not (k == "bytes" and (eq[j] if tr["full"] else o["sha"] == D.sha1(t))):
+                sig = f"{PACK_SITE}[{m}]|roundtrip|declared={D.bucket(declared)}"
+                fnd.add(sig, f"{m}: a valid encoder-produced delta inside a pack does not resolve to the target ({k})",
+                        {"kind": "pack", "mode": m, "type": typ, "base": [["hex", b.hex()]], "delta": d.hex(), "observed": o, **x}, len(d))
+    ctx.cov["pack_path"] = {"cases": len(cases), "empty_payload_guard_hits": guard}
+
+
 # =========================================================================== phase E: encoder primitives
 def phase_prims(ctx, fnd):
     offs = [0, 1, 0x7F, 0xFF, 0x100, 0x101, 0xFF00, 0xFFFF, 0x10000, 0x10001, 0xFF0000, 0xFFFFFF, 0x1000000,
@@ -975,6 +1039,8 @@ def run(ctx):
     ctx.log(f"roundtrip done: {len(deltas)} deltas")
     phase_mutations(ctx, fnd, deltas)
     ctx.log("mutations done")
+    phase_pack(ctx, fnd, deltas, states)
+    ctx.log("pack path done")
     phase_prims(ctx, fnd)
     fnd.flush()
     ctx.cov["rule"] = (
